@@ -93,7 +93,20 @@ def _drop_weight_guard(fn: ast.FunctionDef, w: str) -> ast.FunctionDef:
                     return a
         return None
 
+    def has_w_factor(e) -> bool:
+        if isinstance(e, ast.Name):
+            return e.id == w
+        return isinstance(e, ast.BinOp) and isinstance(e.op, ast.Mult) and (has_w_factor(e.left) or has_w_factor(e.right))
+
     class T(ast.NodeTransformer):
+        def visit_Call(self, node):
+            # where(w > 0, w * y, 0): the selected product already vanishes where w = 0
+            self.generic_visit(node)
+            g = guarded(node)
+            if g is not None and has_w_factor(g):
+                return g
+            return node
+
         def visit_BinOp(self, node):
             self.generic_visit(node)
             if isinstance(node.op, ast.Mult):
